@@ -594,7 +594,7 @@ class SymEx:
         r = self.model(st, name, declared, args, t)
         if r is not None:
             return [(st, r)]
-        rs = self.model_combinators(st, name, args, depth)
+        rs = self.model_combinators(st, name, args, depth, t)
         if rs is not None:
             return rs
         rs = self.model_sequences(st, name, args, depth, t)
@@ -697,9 +697,40 @@ class SymEx:
             out.append((s2, bv))
         return out
 
-    def model_combinators(self, st, name, args, depth):
+    def default_of(self, st, ty, depth):
+        """The value of `<ty as Default>::default()`: primitives, Option, and workspace types by their impl."""
+        ty = (ty or '').replace('packing::', '').strip()
+        if ty in INT_TYS or ty in ('f64', 'f32'):
+            return NUM(0)
+        if ty == 'bool':
+            return ('bool', False)
+        if ty.startswith('std::option::Option<'):
+            return self.NONE
+        for b in list(self.f.bodies.values()) + list(getattr(self.f, 'helpers', {}).values()):
+            if b.fn_name == 'default' and not b.is_closure and (b.impl_trait or '').endswith('Default') and \
+                    self.f.norm(b.impl_self_adt or '') == ty.split('<')[0] and self.loopfree(b) and depth < self.max_depth:
+                outs = self.run(b, [], st=State.fork(st), depth=depth + 1)
+                if len(outs) == 1:
+                    return self.deep(outs[0].st, outs[0].ret)
+        return None
+
+    def model_combinators(self, st, name, args, depth, t=None):
         """Option / bool combinators that take closures, by their documented definitions (each is a `match`)."""
         last = name.rsplit('::', 1)[-1]
+        if args and args[0][0] == 'ref' and (name.endswith(('mem::take', 'mem::replace')) or
+                                             (last in ('take', 'replace') and 'option::Option::<T>::' in name)):
+            # take(&mut x): returns x, leaves Default::default() (None for an Option); replace(&mut x, v): returns x, leaves v
+            r = args[0]
+            old_v = self.deep(st, self.load(st, r))
+            if last == 'take':
+                g = ((t or {}).get('func', {}).get('gargs') or [None])[0]
+                new_v = self.NONE if 'option::Option::<T>::' in name else self.default_of(st, g, depth)
+            else:
+                new_v = args[1] if 'option::Option::<T>::' not in name else self.SOME(args[1])
+            if new_v is not None:
+                b0 = st.frames[r[1]].get(r[2])
+                st.frames[r[1]][r[2]] = self._set_path(b0, list(r[3]), new_v) if r[3] else new_v
+                return [(st, old_v)]
         is_opt = 'option::Option::<T>::' in name
         is_bool = '<impl bool>::' in name
         if last == 'contains' and ('ops::RangeInclusive::<Idx>::' in name or 'ops::Range::<Idx>::' in name) and len(args) == 2:
@@ -720,6 +751,54 @@ class SymEx:
                 for s3, b2 in self.bool_cases(s2, self.binop(upper, x, hi)):
                     out.append((s3, ('bool', b2)))
             return out
+        if last == 'branch' and name.endswith(('Try>::branch', 'Try::branch')) and len(args) == 1 and \
+                ('option::Option<' in name or 'result::Result<' in name):
+            # `x?` on an Option / Result: Some/Ok(v) => Continue(v), None => Break(None), Err(e) => Break(Err(e))
+            CF = 'std::ops::ControlFlow'
+            v = args[0]
+            for _ in range(3):
+                if v[0] == 'ref':
+                    v = self.load(st, v)
+            if 'option::Option<' in name:
+                res = []
+                for s2, some, x in self.opt_cases(st, v):
+                    if some:
+                        res.append((s2, STRUCT(CF, ('Continue', 0), [('0', x)])))
+                    else:
+                        res.append((s2, STRUCT(CF, ('Break', 1), [('0', self.NONE)])))
+                return res
+            RES = 'std::result::Result'
+            if v[0] == 'struct' and v[2] is not None:
+                if v[2][0] == 'Ok':
+                    return [(st, STRUCT(CF, ('Continue', 0), [('0', sfield(v, '0'))]))]
+                return [(st, STRUCT(CF, ('Break', 1), [('0', STRUCT(RES, ('Err', 1), [('0', sfield(v, '0'))]))]))]
+            d = APP('discr', v)
+            key = repr(d)
+            cases = []
+            known = st.known.get(key)
+            for vi in (0, 1):
+                if isinstance(known, int) and known != vi:
+                    continue
+                s2 = st if isinstance(known, int) else st.fork()
+                if not isinstance(known, int):
+                    s2.known[key] = vi
+                    s2.pc.append(('switch', d, vi))
+                pay = self.project(s2, self.project(s2, v, {'downcast': 'Ok' if vi == 0 else 'Err', 'vi': vi}), {'f': 0, 'n': '0'})
+                if vi == 0:
+                    cases.append((s2, STRUCT(CF, ('Continue', 0), [('0', pay)])))
+                else:
+                    cases.append((s2, STRUCT(CF, ('Break', 1), [('0', STRUCT(RES, ('Err', 1), [('0', pay)]))])))
+            return cases
+        if last == 'from_residual' and 'FromResidual' in name and len(args) == 1:
+            v = args[0]
+            for _ in range(3):
+                if v[0] == 'ref':
+                    v = self.load(st, v)
+            if 'option::Option<' in name:
+                return [(st, self.NONE)]
+            if 'result::Result<' in name and v[0] == 'struct' and v[2] is not None and v[2][0] == 'Err':
+                return [(st, STRUCT('std::result::Result', ('Err', 1), [('0', APP('From::from', sfield(v, '0')))]))]
+            return None
         if not (is_opt or is_bool):
             return None
         out = []
